@@ -195,6 +195,13 @@ def fault_other(ctx, op, api):
     if not expect_no_panic(ctx, out, tag + ":" + fired["kind"], what):
         return
     if out.kind == "ok":
+        # a truthful success: the entry exists, so a lookup that reports success reports it
+        if op == "metadata":
+            ctx.expect(out.value.vname == "Some", tag + ":lie:not-found", what + ": reported success with 'no such entry' for a key that exists",
+                       native={"kind": "not", "of": {"kind": "value_is", "step": step, "value": {"meta": None}}})
+        if op == "exists":
+            ctx.expect(out.value is True, tag + ":lie:not-exists", what + ": reported success with 'does not exist' for stored content",
+                       native={"kind": "value_is", "step": step, "value": {"bool": True}})
         if op in ("read", "read_hash"):
             e = sb.content_eq(as_sbytes(out.value), data, ctx.w)
             ctx.expect(e, tag + ":wrong-bytes", what + ": Ok with wrong bytes", native=lambda cz: nat_bytes(cz, step, data))
@@ -214,7 +221,17 @@ def fault_other(ctx, op, api):
                     kb = it.fields[0].fields[0].sb
                     ctx.expect(kb.is_concrete() and kb.concrete() in (b"k", b"other"), tag + ":list-ghost", what + ": listing invents an entry", native=None)
     if op in ("remove_hash", "remove_fully", "remove"):
-        pass
+        if out.kind == "ok":
+            # a truthful success: what was reported as removed is removed
+            if op in ("remove", "remove_fully"):
+                lk = scn.metadata("k")
+                if lk.kind == "ok":
+                    ctx.expect(lk.value.vname == "None", tag + ":lie:still-found", what + ": reported success but the key is still found",
+                               native={"kind": "value_is", "step": last(scn), "value": {"meta": None}})
+            if op in ("remove_hash", "remove_fully"):
+                rh = scn.read_hash(sri)
+                ctx.expect(rh.kind == "err", tag + ":lie:content-still-there", what + ": reported success but the content is still retrievable",
+                           native={"kind": "outcome_in", "step": last(scn), "allowed": ["err"]})
     else:
         # read-only operations leave everything as it was
         expect_bytes(ctx, scn.read("k"), data, tag + ":k-after", "reading the key after the faulted " + op)
